@@ -54,6 +54,8 @@ fn key_of(syllables: &[Syllable], phrase: &str) -> Option<usize> {
 
 #[derive(Default)]
 struct Ctl {
+    run_id: u64,
+    writer_started: u64,
     parked: Option<String>,
     release: bool,
     writer_done: u64,
@@ -66,6 +68,7 @@ struct Ctl {
 static CTL: Mutex<Option<Ctl>> = Mutex::new(None);
 static CV: Condvar = Condvar::new();
 static WATCH: Mutex<Option<PathBuf>> = Mutex::new(None);
+static RUN_ID: std::sync::atomic::AtomicU64 = std::sync::atomic::AtomicU64::new(0);
 
 thread_local! {
     /// 0: a thread we did not start (the writer); 1: controller; 2: the drop thread
@@ -95,7 +98,12 @@ fn callback(name: &str, path: &Path) {
             CV.notify_all();
         }
         _ => {
+            // a writer thread.  Every execution has its own directory, so a thread that
+            // outlived its execution (possible only when drop does not join it) no longer
+            // matches WATCH and runs free; one that is parked when its execution ends is
+            // woken by the change of run_id.
             let mut g = CTL.lock().unwrap();
+            let my_run = g.as_ref().unwrap().run_id;
             *g.as_mut().unwrap().points_seen.entry(name.to_string()).or_insert(0) += 1;
             match name {
                 "before_rename" => {}
@@ -104,12 +112,17 @@ fn callback(name: &str, path: &Path) {
                     CV.notify_all();
                 }
                 _ => {
+                    if name == "writer_start" {
+                        g.as_mut().unwrap().writer_started += 1;
+                    }
                     g.as_mut().unwrap().parked = Some(name.to_string());
                     CV.notify_all();
-                    while !g.as_ref().unwrap().release {
+                    while g.as_ref().unwrap().run_id == my_run && !g.as_ref().unwrap().release {
                         g = CV.wait(g).unwrap();
                     }
-                    g.as_mut().unwrap().release = false;
+                    if g.as_ref().unwrap().run_id == my_run {
+                        g.as_mut().unwrap().release = false;
+                    }
                 }
             }
         }
@@ -230,6 +243,7 @@ struct Exec {
     dict: Option<TrieBuf>,
     drop_thread: Option<std::thread::JoinHandle<()>>,
     closed_seen: bool,
+    last_mem: Option<BTreeMap<usize, u32>>,
     n_u: u32,
     mem_at_close: Option<BTreeMap<usize, u32>>,
     initial: BTreeMap<usize, u32>,
@@ -242,7 +256,8 @@ struct Exec {
 }
 
 fn fresh_dir(base: &Path, tag: &str) -> PathBuf {
-    let d = base.join(tag);
+    static N: std::sync::atomic::AtomicU64 = std::sync::atomic::AtomicU64::new(0);
+    let d = base.join(format!("{}-{}", tag, N.fetch_add(1, std::sync::atomic::Ordering::SeqCst)));
     let _ = std::fs::remove_dir_all(&d);
     std::fs::create_dir_all(&d).unwrap();
     d
@@ -258,7 +273,9 @@ impl Exec {
             b.insert(&[key_syllable(k)], Phrase::new(PHRASE, 1)).unwrap();
         }
         b.build(&path).unwrap();
-        *CTL.lock().unwrap() = Some(Ctl::default());
+        let run_id = RUN_ID.fetch_add(1, std::sync::atomic::Ordering::SeqCst) + 1;
+        *CTL.lock().unwrap() = Some(Ctl { run_id, ..Ctl::default() });
+        CV.notify_all();
         *WATCH.lock().unwrap() = Some(path.clone());
         let dict = TrieBuf::open(&path).unwrap();
         let initial = disk_table(&path).expect("initial file loads");
@@ -268,6 +285,7 @@ impl Exec {
             dict: Some(dict),
             drop_thread: None,
             closed_seen: false,
+            last_mem: None,
             n_u: 0,
             mem_at_close: None,
             initial,
@@ -296,7 +314,22 @@ impl Exec {
         table_of(self.dict.as_ref().unwrap().entries())
     }
 
-    fn observe(&mut self) {
+    fn observe(&mut self, tok: char) {
+        // reopen, flush and the writer never change what the dictionary shows
+        if let Some(d) = &self.dict {
+            let m = table_of(d.entries());
+            if matches!(tok, 'f' | 'r' | 'W') {
+                if let Some(prev) = &self.last_mem {
+                    if prev != &m {
+                        self.failures.push(Failure {
+                            oracle: "contents-changed-without-change",
+                            detail: format!("the dictionary showed {} before and {} after '{}'", fmt_table(&Some(prev.clone())), fmt_table(&Some(m.clone())), tok),
+                        });
+                    }
+                }
+            }
+            self.last_mem = Some(m);
+        }
         let p = disk_table(&self.path);
         if p.is_none() {
             self.failures.push(Failure { oracle: "not-loadable", detail: "the file at the dictionary path does not load".into() });
@@ -445,7 +478,7 @@ impl Exec {
             }
             _ => {}
         }
-        self.observe();
+        self.observe(tok);
     }
 
     fn finish(mut self) -> (Vec<String>, Vec<Failure>, bool, BTreeMap<String, u64>) {
@@ -463,7 +496,8 @@ impl Exec {
             });
             CV.notify_all();
             let drop_pending = self.drop_thread.as_ref().map(|h| !h.is_finished()).unwrap_or(false);
-            let busy = self.dict.as_ref().map(|d| d.verif_writer_state() == Some(false)).unwrap_or(false);
+            let busy = self.dict.as_ref().map(|d| d.verif_writer_state() == Some(false)).unwrap_or(false)
+                || with_ctl(|c| c.writer_started > c.writer_done);
             if !parked && !drop_pending && !busy {
                 break;
             }
@@ -726,6 +760,9 @@ fn explore(tr: &Tier, out: &str, json: &str) -> i32 {
             e.step(c, depth);
         }
         st.account(&mut w, &base, &exe, &path, e, tr.crash);
+        if st.hangs >= 3 {
+            break;
+        }
         // backtrack: deepest position with an untried alternative
         let mut next: Option<Vec<char>> = None;
         for d in (0..path.len()).rev() {
